@@ -515,6 +515,69 @@ def rule_r11(repo, run, table):
               % tmpl, wc.loc(f))
 
 
+def rule_r12(repo, run):
+    R = run.rule("C02.R12", "every callable signature is generated and named in its own language's scope: defaults of "
+                            "value 0 are defaults, C names are built from C name scopes, references are passed as pointers")
+    from sa import lints, decide
+    found, n = lints.truthiness_of_optional(repo, ("generate", "wrapc", "ast"), fields=("init",))
+    for mn, q, node, msg in found:
+        run.fail(R, "%s.%s:truthiness@%s" % (mn, q, re.sub(r"\s+", " ", repo.module(mn).seg(node.test))[:40]), msg,
+                 repo.module(mn).loc(node))
+    run.rules[R]["obligations"] += n
+    run.rules[R]["discharged"] += n - len(found)
+    # C_name_scope / F_name_scope: a scope of one language is derived from the parent's scope of the same language
+    ns = 0
+    for mn in ("ast", "generate"):
+        m = repo.module(mn)
+        for node in ast.walk(m.tree):
+            tgt = None
+            if isinstance(node, ast.keyword) and node.arg and node.arg.endswith("_name_scope"):
+                tgt, val = node.arg, node.value
+            elif isinstance(node, ast.Assign) and isinstance(node.targets[0], (ast.Attribute, ast.Name)):
+                t = node.targets[0]
+                nm = t.attr if isinstance(t, ast.Attribute) else t.id
+                if nm.endswith("_name_scope"):
+                    tgt, val = nm, node.value
+            if not tgt:
+                continue
+            ns += 1
+            srcs = sorted(set(x.attr for x in ast.walk(val) if isinstance(x, ast.Attribute) and x.attr.endswith("_name_scope")))
+            run.check(R, "%s:%s<-%s@%d" % (mn, tgt, ",".join(srcs) or "-", node.value.lineno), all(x == tgt for x in srcs),
+                      "%s is built from %s: names of one language take the scope prefix of another (a namespace or class "
+                      "is missing from, or wrongly spelled in, the generated names)" % (tgt, srcs), m.loc(node.value))
+    run.floor(R, "name-scope constructions", ns, 8)
+    # compute_c_deref: how an argument of each shape is turned back into the C++ object
+    wc = repo.module("wrapc")
+    dm = repo.module("declast")
+    f = wc.func("compute_c_deref")
+    sem = decide.pointer_predicates(dm)
+    argn, localn = f.args.args[0].arg, f.args.args[1].arg
+    chain = [st for st in f.body if isinstance(st, ast.If)]
+    for desc, op, want in (("pointer argument", "*", ("*", "->", "")), ("reference argument", "&", ("*", "->", "")),
+                           ("value argument", None, ("", ".", "&"))):
+        def oracle(e, op=op):
+            if isinstance(e, ast.Call) and isinstance(e.func, ast.Attribute) and pyflow.is_name(e.func.value, argn) and e.func.attr in sem:
+                return op in sem[e.func.attr]
+            if isinstance(e, ast.Compare) and pyflow.is_name(e.left, localn):
+                return False        # no local variable override
+            if isinstance(e, ast.Name) and e.id == localn:
+                return False
+            return None
+        taken = decide.take(chain, oracle)
+        if taken is None:
+            run.unmodelled_site(R, "wrapc.compute_c_deref[%s]" % desc, "decision chain not decidable")
+            continue
+        got = {}
+        for st in taken:
+            if isinstance(st, ast.Assign) and isinstance(st.targets[0], ast.Attribute):
+                got[st.targets[0].attr] = pyflow.const_str(st.value)
+        triple = (got.get("c_deref"), got.get("c_member"), got.get("c_addr"))
+        run.check(R, "wrapc.compute_c_deref[%s]" % desc, triple == want,
+                  "a %s gives (deref, member, addr) = %s, expected %s: C passes references as pointers, so the wrapper "
+                  "must use the pointer itself, not the address of its own parameter" % (desc, triple, want), wc.loc(f),
+                  sample=dict(shape=desc, triple=triple))
+
+
 def run(repo, run, tier):
     tables.check_model_assumptions(repo)
     table = tables.StatementTable(repo, "statements", "fc_statements")
@@ -529,4 +592,5 @@ def run(repo, run, tier):
     rule_r8(repo, run)
     rule_r9(repo, run)
     rule_r11(repo, run, table)
+    rule_r12(repo, run)
     rule_x(repo, run)
